@@ -5,7 +5,9 @@ import json, os
 HERE = os.path.dirname(os.path.dirname(os.path.abspath(__file__)))
 
 NOTE = ("Trusted base: CPython's ast module, the vsa front end (template expansion of exec'd operator templates, class "
-        "model/MRO), and the frozen anchor/field tables in the rule module. The check decides the listed structural "
+        "model/MRO), the normal-form rewriter (vsa/normalize.py: helper inlining, literal-loop unrolling and the other equivalences of "
+        "DESIGN.md 2.5; a rule without a verdict on the source as written is decided again on that equivalent form), and the "
+        "frozen anchor/field tables in the rule module. The check decides the listed structural "
         "clauses, which are necessary conditions of the property; it does not decide the numerical behaviour itself.")
 
 CLAIMS = {
